@@ -595,7 +595,9 @@ type Free struct {
 	Accept string `json:"accept"`
 	// DirectCallers: number of goroutines calling SendDirect concurrently (batches dealt round-robin)
 	DirectCallers int `json:"direct_callers,omitempty"`
-	SlowUs        int `json:"slow_us,omitempty"` // time the client takes per pack (a consumer slower than the producers)
+	// ReloadStorm: a goroutine keeps calling ApplyConfig (with the settings in force) while the producers run
+	ReloadStorm bool `json:"reload_storm,omitempty"`
+	SlowUs      int  `json:"slow_us,omitempty"` // time the client takes per pack (a consumer slower than the producers)
 }
 
 func genFree(r *vh.Rng, thorough bool) *Case {
@@ -648,6 +650,9 @@ func genFree(r *vh.Rng, thorough bool) *Case {
 		}
 		k := r.Intn(np)
 		f.Producers[k] = append(f.Producers[k], it)
+	}
+	if f.Accept != "stalled" && r.Chance(30) {
+		f.ReloadStorm = true
 	}
 	nd := r.Intn(4)
 	if r.Chance(35) {
